@@ -4,6 +4,7 @@ from tools import vlib, cli
 RULE = ("one shared Arc<Checker> driven through three shuffled passes over every fixture / corpus / generated program, the same program twice "
         "in a row, and eight threads with independent orders, each output (content AND order, incl. secondary labels and notes) compared with a "
         "fresh single run; 12 process starts of the CLI (fresh hash seeds) on a file with many multi-label diagnostics, byte-compared (json2); "
+        "each of a set of files (incl. expressions nested 8..4096 levels deep, which exhaust a pool thread's stack from some depth on) checked alone and next to another file, outcome compared; "
         "sequences of find_global queries through ONE library value vs the Lean cache model and vs fresh lookups; a source audit that no "
         "hash-map / hash-set iteration in selene-lib reaches a diagnostic un-sorted; non-trivial = a program with >= 2 diagnostics or a "
         "history that repeats a query")
@@ -86,6 +87,44 @@ def body(ctx):
                       f"file: {os.path.join(d, 'multi.lua')}\nconfig: {os.path.join(d, 'near_duplicates.toml')}\n{runs} runs produced {len(outs)} different (exit status, stdout, stderr)\nfirst: rc={a[0]}\n{a[1][:1200]}\n{a[2]}\nsecond: rc={b[0]}\n{b[1][:1200]}\n{b[2]}")
     else:
         ctx.nontrivial.add("cli-restarts-near-duplicate-config")
+    # alone vs accompanied: what the tool says about one file must not depend on whether other files are named in the same
+    # invocation — for ordinary files and for a series of deeply nested ones, whose checking needs more and more stack (the
+    # outcome may then be "the process died", but the same one in both invocations: every file is checked on a pool thread)
+    companions = os.path.join(d, "companion.lua")
+    with open(companions, "w") as fh:
+        fh.write("local other = 1\nprint(other, undefined_other)\n")
+    def outcome(args, name):
+        rc, out, err = cli.run_selene(["--display-style", "quiet", "--no-summary"] + args, d)
+        ctx.evaluations += 1
+        if rc < 0 or rc >= 128:
+            return "process died"
+        return "\n".join(l for l in out.splitlines() if l.startswith(name + ":")) + f"\nexit status {rc}"
+    subjects = [("multi.lua", None)]
+    depths = (8, 24, 40, 64, 128, 512) if ctx.tier == "quick" else (4, 8, 16, 24, 32, 40, 48, 56, 64, 80, 96, 128, 192, 256, 512, 1024, 4096)
+    for depth in depths:
+        for kind, (o, c) in (("parens", ("(", ")")), ("tables", ("{", "}")), ("calls", ("f(", ")"))):
+            name = f"deep_{kind}_{depth}.lua"
+            with open(os.path.join(d, name), "w") as fh:
+                fh.write(f"local unused = {o * depth}1{c * depth}\nprint(undefined_thing)\n")
+            subjects.append((name, depth))
+    died = 0
+    for name, depth in subjects:
+        alone = outcome([name], name)
+        # the exit status of a joint run also reflects the companion's diagnostics: compare the subject's own lines only
+        strip = lambda o: o if o == "process died" else o.rsplit("\nexit status", 1)[0]
+        for label, args in (("next to another file", [name, "companion.lua"]), ("next to another file, one thread", ["--num-threads", "1", "companion.lua", name])):
+            together = outcome(args, name)
+            if strip(alone) != strip(together):
+                # an overflow threshold could in principle wobble between process starts: report only what repeats
+                again = [(strip(outcome([name], name)), strip(outcome(args, name))) for _ in range(2)]
+                if all(a != b for a, b in again):
+                    ctx.violation(f"implementation violates the specification: [C12] {name} checked alone and checked {label} give different outcomes (3 of 3 repetitions)",
+                                  f"directory: {d}\nfile: {name}" + (f" (an expression nested {depth} levels deep)" if depth else "") +
+                                  f"\nalone (`selene {name}`):\n{strip(alone)[:800]}\n{label} (`selene {' '.join(args)}`):\n{strip(together)[:800]}")
+                    break
+        died += alone == "process died"
+    ctx.nontrivial.add("alone-vs-accompanied")
+    ctx.notes.append(f"alone vs accompanied: {len(subjects)} files, {died} of them exhaust the stack of a pool thread in this (debug) build — in both invocations alike")
     # source audit
     findings = hash_iteration_audit(ctx)
     ctx.notes.append(f"hash-iteration audit: {len(findings)} un-audited iteration sites")
